@@ -217,7 +217,7 @@ def execute(spec, P, fault=None, observe=False, stride=1, line_fault=None, line_
     P.begin(hook)
     import signal
 
-    limit = float(os.environ.get("VERIF_EXEC_LIMIT_S", "20"))
+    limit = float(os.environ.get("VERIF_EXEC_LIMIT_S", "10"))
     old_handler = signal.signal(signal.SIGALRM, _on_alarm)
     try:
         with warnings.catch_warnings():
@@ -268,9 +268,13 @@ def crash_points(n, transient, rng, tier):
     if len(tr) > 0:
         pts.update(rng.sample(tr, min(len(tr), 40)))
     head = 20 if tier == "quick" else 200
+    k = 30 if tier == "quick" else 600
+    if n > 30000:  # very long calls (cost of one injected execution ~ the call itself): a thinner sample
+        head, k = head // 4, k // 2
+    elif n > 5000:
+        head, k = head // 2, (k * 2) // 3
     pts.update(range(1, head + 1))
     pts.update(range(n - head + 1, n + 1))
-    k = 30 if tier == "quick" else 600
     pts.update(rng.sample(range(1, n + 1), min(n, k)))
     return sorted(pts), False
 
@@ -343,6 +347,12 @@ def run_workload(spec, P, rng, tier, cnt):
             )  # fmt: skip
     # ---- second crash-point space: every executed source line of library code (a KeyboardInterrupt
     # can arrive between any two lines, also where no backend call is made: operators, slicing, np.*)
+    if n0 > (30000 if tier == "quick" else 300000):
+        # line tracing costs ~10x: for very long calls only the backend-call crash points are used
+        cnt.inc("workloads_without_line_level_pass")
+        dg = digest_obj([spec["entry"], spec["choices"], spec.get("tenalg"), spec.get("dtype"), spec.get("corrupt"), n, base["names"], base["transient"],
+                         base["outcome"], outcomes, "no-line-pass"])
+        return viols, dg, n, len(pts)
     lbase = execute(spec, P, line_observe=True)
     cnt.inc("executions")
     cnt.inc("library_lines_executed", lbase["n_lines"])
